@@ -248,3 +248,20 @@ TraceArr = ArraySort(IntSort(), Rec)
 def rec(fn, recv=None, a0=None, a1=None, kw=None):
     return Rec.call(StringVal(fn), Val.VNone if recv is None else recv, Val.VNone if a0 is None else a0,
                     Val.VNone if a1 is None else a1, EMPTY_DICT if kw is None else kw)
+
+
+# ------------------------------------------------------------------------------------ exact type of a value (type(x) is type(y))
+opq_type = Function('opq_type', IntSort(), IntSort())          # exact class of an arbitrary user value (never one of the modelled built-in types)
+PRIMITIVE_TYPE_TAGS = {type(None): 1, bool: 3, int: 4, float: 5, str: 6, dict: 7, tuple: 8, list: 9}
+
+
+def type_tag(v):
+    """an integer naming the exact class of a value: equal tags <=> `type(a) is type(b)`.  Heap objects: 1000 + 2*class id of the
+    object's class; arbitrary user values: odd numbers above 1000 (unknown classes, distinct from every modelled one)."""
+    o = opq_type(Val.k(v))
+    cases = [(v == Val.VNone, 1), (v == Val.Undef, 2), (Val.is_B(v), 3), (Val.is_I(v), 4), (Val.is_R(v), 5), (Val.is_S(v), 6), (Val.is_D(v), 7),
+             (Val.is_T(v), If(tup_is_tuple(Val.tk(v)), 8, 9)), (Val.is_EC(v), 10), (Val.is_Goto(v), 11), (Val.is_FS(v), 12),
+             (Val.is_Obj(v), 1000 + 2 * class_of(Val.ref(v)))]
+    r = 1001 + 2 * If(o >= 0, o, -o)
+    for c, t in reversed(cases): r = If(c, t, r)
+    return r
